@@ -540,7 +540,7 @@ func genTotality(prop string, seed uint64, kinds []string, target string, bareIn
 			}
 		}
 		for _, m := range marks {
-			if m.Off+m.Width > len(b) || len(sc.Direct) > 6000 {
+			if m.Off+m.Width > len(b) || len(sc.Direct) > 3000 {
 				continue
 			}
 			for _, v := range fieldValues(m.Width, readField(b, m), len(b), len(b)-m.Off) {
